@@ -116,7 +116,18 @@ func (f *Fosite) WriteRevocationResponse(ctx context.Context, rw http.ResponseWr
 		rw.WriteHeader(ErrInvalidClient.CodeField)
 		_, _ = rw.Write(js)
 	} else {
-		// 200 OK
-		rw.WriteHeader(http.StatusOK)
+		// The request was refused (e.g. the token belongs to another client) or could not be carried out
+		// (e.g. the storage failed): the client is informed of the error. Unknown and already invalid
+		// tokens never get here, NewRevocationRequest reports them as success.
+		rfcerr := ErrorToRFC6749Error(err)
+		js, err := json.Marshal(rfcerr)
+		if err != nil {
+			http.Error(rw, fmt.Sprintf(`{"error": "%s"}`, err.Error()), http.StatusInternalServerError)
+			return
+		}
+
+		rw.Header().Set("Content-Type", "application/json;charset=UTF-8")
+		rw.WriteHeader(rfcerr.CodeField)
+		_, _ = rw.Write(js)
 	}
 }
